@@ -31,6 +31,8 @@ def gen_defs(rng, mode):
                 fd = fl.gen_field(rng, start=pos)
             fs.append(fd)
             pos = fd["start"] + fd["size"]
+        if len(fs) > 1 and rng.random() < 0.3:
+            rng.shuffle(fs)   # declared in an order different from the columns; the layout (and the record width) is unchanged
         out.append({"ident": ident, "digits": digits, "fields": fs, "delim": rng.choice([";", ",", "|"]) if mode == "delim" else None})
     return out
 
@@ -78,7 +80,7 @@ class CHECK(Check):
     def impl(self, case):
         mode = case["mode"]
         sto = "BINARY" if mode == "binary" else "TEXT"
-        regs = [reglib.mk_register_class(rd, i) for i, rd in enumerate(case["defs"])]
+        regs = reglib.mk_register_classes(case["defs"])
         buf = io.BytesIO() if mode == "binary" else io.StringIO()
         chunks, matches = [], []
         try:
